@@ -279,6 +279,8 @@ var Mutants = map[string][]Mutant{
 		{"stroke keeps even-odd star", "renderers/pdf/pdf.go", `\t\t\tif closed \{\n\t\t\t\tr\.w\.Write\(\[\]byte\(" s"\)\)\n\t\t\t\} else \{\n\t\t\t\tr\.w\.Write\(\[\]byte\(" S"\)\)\n\t\t\t\}\n\t\t\} else if style\.HasFill\(\) && style\.HasStroke\(\) \{`, "\t\t\tif closed {\n\t\t\t\tr.w.Write([]byte(\" s\"))\n\t\t\t} else {\n\t\t\t\tr.w.Write([]byte(\" S\"))\n\t\t\t}\n\t\t\tif style.FillRule == canvas.EvenOdd {\n\t\t\t\tr.w.Write([]byte(\"*\"))\n\t\t\t}\n\t\t} else if style.HasFill() && style.HasStroke() {", "E5.grammar"},
 	},
 	"C14": {
+		{"fill-only path transformed in place by the rasterizer", "renderers/rasterizer/rasterizer.go", `\t\tfill = path\.Copy\(\)\.Transform\(m\)\n`, "\t\tfill = path\n\t\tif style.HasStroke() {\n\t\t\tfill = fill.Copy()\n\t\t}\n\t\tfill = fill.Transform(m)\n", "E1.render-pure"},
+		{"rasterizer scans the even-odd rule in non-zero mode and the others in even-odd mode", "renderers/rasterizer/rasterizer.go", `SetWinding\(style\.FillRule != canvas\.EvenOdd\)`, "SetWinding(style.FillRule == canvas.EvenOdd)", "E6.fill-rule-map"},
 		{"stroke tolerance scaled by the diagonal of the view", "renderers/rasterizer/rasterizer.go", `if _, _, _, sx, sy, _ := m\.Decompose\(\); !canvas\.Equal\(sx, 0\.0\) \|\| !canvas\.Equal\(sy, 0\.0\) \{`, "if sx, sy := m[0][0], m[1][1]; !canvas.Equal(sx, 0.0) || !canvas.Equal(sy, 0.0) {", "E11.view-scale-invariant"},
 		{"scanner sink skips curve segments that end where they start", "path.go", `(?s)(func \(p \*Path\) ToScanxScanner.*?\t\t\tif 0 < i \{\n\t\t\t\tstart = Point\{p\.d\[i-3\], p\.d\[i-2\]\}\n\t\t\t\}\n)`, "${1}\t\t\tif n := cmdLen(cmd); start.Equals(Point{p.d[i+n-3], p.d[i+n-2]}) {\n\t\t\t\tbreak\n\t\t\t}\n", "E11.sink-forwards-every-segment"},
 		{"colour space conversion loops to the width of the image", "renderers/rasterizer/util.go", `(?s)(if dstRGBA, ok := dst\.\(\*image\.RGBA\); ok \{\n\t\tfor j := b\.Min\.Y; j < b\.Max\.Y; j\+\+ \{\n\t\t\t)for i := b\.Min\.X; i < b\.Max\.X; i\+\+ \{`, "${1}for i := 0; i < b.Dx(); i++ {", "E11.pixel-loop-bounds"},
